@@ -3,6 +3,7 @@ package main
 import (
 	"fmt"
 	"go/ast"
+	"go/token"
 	"go/types"
 	"math"
 	"sort"
@@ -152,6 +153,50 @@ func gcKeyFunctions(c *Ctx) []gcWriter {
 	return out
 }
 
+// ruleGCStorageErrors: the handlers decide on what the storage returns; a
+// failed read that is reported as "nothing stored" lets a smaller value through.
+// No storage method of the GC keys, and neither handler, reports success after
+// a kv or storage call whose error was not found nil.
+func ruleGCStorageErrors(c *Ctx) {
+	P := c.P
+	rule := c.Prop + "/storage-errors"
+	base := func(m string) Callee { return P.IMethod("server/kv", "Base", m) }
+	// (the pruning of an expired entry inside LoadMinServiceGCSafePoint is best effort: its Remove is not listed)
+	kvCalls := []Callee{base("Load"), base("LoadRange"), base("Save")}
+	st := func(m string) *ssa.Function { return P.Method("server/core", "Storage", m) }
+	for _, fn := range []*ssa.Function{st("LoadGCSafePoint"), st("SaveGCSafePoint"), st("LoadMinServiceGCSafePoint"), st("SaveServiceGCSafePoint"), st("RemoveServiceGCSafePoint"), st("GetAllServiceGCSafePoints")} {
+		var evs []Ev
+		calls := kvCalls
+		if fn == st("RemoveServiceGCSafePoint") {
+			calls = append(append([]Callee{}, kvCalls...), base("Remove"))
+		}
+		for _, k := range calls {
+			if len(callsIn(fn, false, k)) > 0 {
+				evs = append(evs, newSettledEv(fn, k.CName(), callMatcher(k)))
+			}
+		}
+		if len(evs) == 0 {
+			c.Undec(rule, "kv calls in "+fnName(fn), "at least one", P.pos(fn.Pos()), "")
+			continue
+		}
+		c.needOnSuccess(rule, fn, evs, all, "success is reported only when every kv call made so far returned a nil error")
+	}
+	for _, h := range []*ssa.Function{P.Method("server", "Server", "UpdateGCSafePoint"), P.Method("server", "Server", "UpdateServiceGCSafePoint")} {
+		var evs []Ev
+		for _, m := range []string{"LoadGCSafePoint", "SaveGCSafePoint", "LoadMinServiceGCSafePoint", "SaveServiceGCSafePoint", "RemoveServiceGCSafePoint"} {
+			f := st(m)
+			if len(callsIn(h, false, F(f))) > 0 {
+				evs = append(evs, newSettledEv(h, m, callMatcher(F(f))))
+			}
+		}
+		if len(evs) == 0 {
+			c.Undec(rule, "storage calls in "+fnName(h), "at least one", P.pos(h.Pos()), "")
+			continue
+		}
+		c.needOnSuccess(rule, h, evs, all, "the handler answers without an error only when every storage call made so far succeeded")
+	}
+}
+
 func init() {
 	register("C15", "GC safe points never move backwards", func(c *Ctx) {
 		P := c.P
@@ -207,6 +252,7 @@ func init() {
 			}
 		})
 
+		c.Group("C15/storage-errors", "errors of the kv layer and of the GC storage methods are never reported as success", func() { ruleGCStorageErrors(c) })
 		c.Group("C15/service-safepoint", "service safe points: load-min→save atomic; registration only under TTL>0 ∧ safePoint>=min; TTL<=0 removes; gc_worker is permanent; expired entries are removed", func() {
 			st := func(m string) *ssa.Function { return P.Method("server/core", "Storage", m) }
 			saveSvc, removeSvc, loadMin := st("SaveServiceGCSafePoint"), st("RemoveServiceGCSafePoint"), st("LoadMinServiceGCSafePoint")
@@ -239,6 +285,33 @@ func init() {
 				})
 				c.need("C15/service-save-guard", fn, "call SaveServiceGCSafePoint", func(i ssa.Instruction) bool { return i == s.Instr.(ssa.Instruction) },
 					[]Ev{gTTL, gMin}, all, "dominated by TTL > 0 ∧ request.SafePoint >= min.SafePoint (min from LoadMinServiceGCSafePoint)")
+				// expiry arithmetic: ExpiredAt = now + TTL is kept only when the sum cannot overflow,
+				// otherwise it is clamped to MaxInt64 (a wrapped sum is a record that expired long ago)
+				isUnix := func(v ssa.Value) bool {
+					cl, _ := callOf(v)
+					return cl != nil && isStdMethod(cl, "time", "Time", "Unix")
+				}
+				headroom := func(v ssa.Value) bool {
+					b, ok := strip(v).(*ssa.BinOp)
+					return ok && b.Op == token.SUB && isConstInt(math.MaxInt64)(b.X) && isUnix(b.Y)
+				}
+				fits := guardRel("TTL < MaxInt64 - now", ">", headroom, loadOfField(ttlField))
+				clamped := &calledEv{name: "ExpiredAt = MaxInt64", match: func(x ssa.Instruction) bool {
+					st, ok := x.(*ssa.Store)
+					return ok && fieldOfAddr(st.Addr) == fExpired && isConstInt(math.MaxInt64)(st.Val)
+				}}
+				sumStored := false
+				for _, st := range storesToField(fn, fExpired) {
+					if b, ok := strip(st.Val).(*ssa.BinOp); ok && b.Op == token.ADD && (isUnix(b.X) && isLoadOf(b.Y, ttlField) || isUnix(b.Y) && isLoadOf(b.X, ttlField)) {
+						sumStored = true
+					}
+				}
+				if sumStored {
+					c.need("C15/service-expiry", fn, "call SaveServiceGCSafePoint", func(i ssa.Instruction) bool { return i == s.Instr.(ssa.Instruction) },
+						[]Ev{fits, clamped}, anyOf, "now + TTL is saved as the expiry only if it cannot overflow (TTL < MaxInt64 - now); otherwise the expiry was set to MaxInt64")
+				} else {
+					c.Undec("C15/service-expiry", "ExpiredAt = now + TTL in "+fnName(fn), "found", P.pos(fn.Pos()), "")
+				}
 				gTTL0 := guardRel("TTL<=0", "<=", loadOfField(ttlField), isConstInt(0))
 				c.need("C15/service-remove-guard", fn, "call RemoveServiceGCSafePoint", instrCallMatcher(F(removeSvc)),
 					[]Ev{gTTL0}, all, "a registration is removed only under TTL <= 0")
